@@ -1,5 +1,6 @@
 import PdModel.Model.Bootstrap
 import PdModel.Lemmas.Bootstrap
+import PdModel.Lemmas.BootstrapEvents
 import PdModel.Spec.C20
 import PdModel.Generated.Bootstrap
 set_option linter.unusedSimpArgs false
@@ -312,37 +313,64 @@ theorem cluster_id_agreement (ops : List (Nat × Fault)) :
     unfold initId
     cases f <;> simp [hk]
 
-/-- the model's payload check is the specification's notion of a well-formed payload -/
-def infoOf (p : Payload) (foreign : Bool) : C20.Info :=
-  { store := if p.hasStore then some p.storeId else none,
-    region := if p.hasRegion then some p.regionId else none,
-    keysEmpty := p.startLen = 0 ∧ p.endLen = 0, peers := p.peers, foreign := foreign }
+/-! ### the observable specification holds of every model history -/
 
-theorem checkReq_iff_wellFormed (p : Payload) (foreign : Bool) :
-    checkReq p = none ↔ (infoOf p foreign).wellFormed = true := by
-  unfold checkReq infoOf C20.Info.wellFormed
-  cases hs : p.hasStore <;> cases hr : p.hasRegion <;> simp
-  · split <;> simp
-  · by_cases h1 : p.storeId = 0
-    · simp [h1]
-      split <;> simp_all
-    · simp only [h1, if_false]
-      by_cases h2 : p.startLen > 0 ∨ p.endLen > 0
-      · simp only [h2, if_true]
-        split <;> simp_all <;> omega
-      · simp only [h2, if_false]
-        by_cases h3 : p.regionId = 0
-        · simp [h3]; split <;> simp_all
-        · simp only [h3, if_false]
-          have h2' : p.startLen = 0 ∧ p.endLen = 0 := by omega
-          match hp : p.peers with
-          | [] => simp
-          | [(pid, sid)] =>
-            simp only
-            by_cases h4 : sid = p.storeId
-            · by_cases h5 : pid = 0 <;> simp [h1, h3, h4, h5, h2']
-            · simp [h4]
-          | _ :: _ :: _ => simp
+theorem einv_run (ops : List Op) : ∀ (s : St) (evs : List C20.Ev), Inv s → EInv s evs →
+    Inv (run s ops) ∧ EInv (run s ops) (evs ++ events s ops) := by
+  induction ops with
+  | nil => intro s evs hi h; simpa [run, events] using ⟨hi, h⟩
+  | cons op ops ih =>
+    intro s evs hi h
+    have h1 := inv_step s hi op
+    have h2 := einv_step s evs op hi h
+    have := ih _ _ h1 h2
+    simpa [run, events, List.append_assoc] using this
+
+theorem refuses_req (a : C20.Ev) (r : Nat) (i : C20.Info) (h : C20.refuses a (.req r i) = true) :
+    a = .resp r .refused := by
+  cases a with
+  | req _ _ => simp [C20.refuses] at h
+  | recs _ => simp [C20.refuses] at h
+  | resp r' k => cases k <;> simp [C20.refuses] at h ⊢; exact h
+
+/-- the event invariant gives the specification -/
+theorem holds_of_einv (s : St) (evs : List C20.Ev) (hi : Inv s) (h : EInv s evs) : C20.Holds s.cid evs := by
+  refine ⟨?_, ?_, ?_, ?_⟩
+  · intro i hi' j hj ha hb; exact h.accU i j hi' hj ha hb
+  · intro k hk ha
+    obtain ⟨r, p, j, hw, _, hp, hgk, hjk, hgj, hall⟩ := h.acc k hk ha
+    obtain ⟨hc, _⟩ := payloadOf_won s hi r p hw hp
+    have hwf := (checkReq_iff_wellFormed p false).1 hc
+    have hfg : (infoOf p false).foreign = false := rfl
+    refine ⟨j, hjk, ?_, fun l hl hkl => hall l hkl hl⟩
+    rw [hgj, hgk]
+    simp [C20.issuesGood, hwf, hfg]
+  · intro i hi' j hj hij hc; exact h.stable i j hij hj hc
+  · intro j hj hc
+    obtain ⟨hgj, r, p, i, hw, hp, hij, hgi⟩ := h.compl j hj hc
+    obtain ⟨hck, he⟩ := payloadOf_won s hi r p hw hp
+    refine ⟨i, hij, ?_, ?_, ?_⟩
+    · have hwf := (checkReq_iff_wellFormed p false).1 hck
+      have hfg : (infoOf p false).foreign = false := rfl
+      rw [hgi]; simp [C20.isGoodReq, hwf, hfg]
+    · rw [hgi, hgj]; exact recordsOf_full s.cid r p hck s he
+    · intro l hl
+      rw [hgi]
+      cases hr : C20.refuses (C20.getEv evs l) (.req r (infoOf p false)) with
+      | false => rfl
+      | true => exact absurd (refuses_req _ _ _ hr) (h.noRef r hw l hl)
+
+/-- **C20, observable form.**  For every history of the model – any number of members and requests with
+    arbitrary payloads and cluster ids, any interleaving of their validation, transaction and start steps with
+    leader changes, any transaction fault – the events a client and an observer of the stored records see
+    (requests issued, answers, records after every step) satisfy `Spec.C20.Holds`: at most one request is
+    accepted; it was well-formed and for this cluster and from then on the records are exactly its own;
+    records never change once present; they come from one well-formed request that is never refused. -/
+theorem C20_holds (cid n l : Nat) (ops : List Op) : C20.Holds cid (events (init cid n l) ops) := by
+  obtain ⟨hi, he⟩ := einv_run ops (init cid n l) [] (inv_init cid n l) (einv_nil _ rfl)
+  have := holds_of_einv _ _ hi he
+  rw [run_cid] at this
+  simpa [init] using this
 
 /-! ### structure obligations (regenerated from the Go source on every run) -/
 
@@ -376,5 +404,15 @@ example : (run (init 7 2 0) demoOps).wins = [4] ∧
     (run (init 7 2 0) demoOps).reqs.map (·.phase) =
       [.done (.malformed .peerStore), .done .mismatch, .done .notLeader, .done .conflict, .done .ok,
        .done .already] := by decide
+
+/-- what the observer sees of a race: two requests parked, the second wins, the first is refused, a late one
+    is told "already" -/
+example : events (init 7 2 0) [.boot 0 7 pA, .boot 0 7 pB, .commit 1 .none, .start 1, .commit 0 .none, .boot 0 7 pA] =
+    [.req 0 (infoOf pA false), .recs {}, .req 1 (infoOf pB false), .recs {},
+     .recs ⟨some 7, [4], [5], true⟩, .resp 1 .accepted, .recs ⟨some 7, [4], [5], true⟩,
+     .resp 0 .refused, .recs ⟨some 7, [4], [5], true⟩,
+     .req 2 (infoOf pA false), .resp 2 .refused, .recs ⟨some 7, [4], [5], true⟩] := by decide
+
+example : C20.Holds 7 (events (init 7 2 0) demoOps) := C20_holds 7 2 0 demoOps
 
 end PdModel.Bootstrap
